@@ -76,6 +76,13 @@ KINDS = {
                                           '>>> ModBadRepr()  # FAILMARK', 'something'], None),
     'bad_repr_pending_output': (['>>> class R:', '...     def __repr__(self):', '...         raise RuntimeError("norepr")',
                                  '>>> print("unmatched output")', '>>> R()  # FAILMARK', 'something'], None),
+    # the statement also printed something that does not match the want: the value is rendered as the second candidate
+    # (finding F46)
+    'bad_repr_with_output': (['>>> class R:', '...     def __repr__(self):', '...         raise RuntimeError("norepr")',
+                              '>>> x0 = 1', '>>> x1 = 2', '>>> (print("printed"), R())[1]  # FAILMARK', 'something'], None),
+    'bad_repr_with_output_first_part': (['>>> class R:', '...     def __repr__(self):',
+                                         '...         raise RuntimeError("norepr")', '', 'prose', '',
+                                         '>>> (print("printed"), R())[1]  # FAILMARK', 'something', 'else'], None),
     'bad_directive': (['>>> x = 1  # xdoctest: +REQUIRES(notatag) FAILMARK'], 'Exception'),
     'bad_directive_block': (['>>> # xdoctest: +REQUIRES(notatag) FAILMARK', '>>> x = 1'], 'Exception'),
     # unbalanced parentheses in a directive comment that the parser does not look at (extra blanks after the prompt):
